@@ -38,7 +38,7 @@ SAN_OK = True
 def lanes(tier):
     if tier == "quick":
         return [("plain", "plain", 200), ("san", "san", 40), ("poly", "plain", 160), ("polysan", "san", 32)]
-    return [("plain", "plain", 3000), ("san", "san", 400), ("poly", "plain", 4000), ("polysan", "san", 400)]
+    return [("plain", "plain", 6000), ("san", "san", 800), ("poly", "plain", 10000), ("polysan", "san", 1000)]
 
 
 def run_poly_direct(rng, counters):
